@@ -4,6 +4,7 @@ from .body import GeoBody
 from .point import Point, origin
 from ..utils.vector import Vector
 from ..utils.constant import *
+import copy
 
 
 class Line(GeoBody):
@@ -95,7 +96,9 @@ class Line(GeoBody):
             self.sv[0] += v[0]
             self.sv[1] += v[1]
             self.sv[2] += v[2]
-            return Line(self.sv, self.dv)
+            # hand out copies so that the returned line does not share
+            # its vectors with self (moving one must not move the other)
+            return Line(copy.deepcopy(self.sv), copy.deepcopy(self.dv))
         else:
             raise NotImplementedError(
                 "The second parameter for move function must be Vector"
